@@ -215,6 +215,11 @@ def stepR (cfg : Cfg) (s : St) : Ev → Option St
       | some c =>
         some { setChan s id {} with orphans := s.orphans.filter (·.1 != id) ++ [(id, { c with queue := c.queue ++ [.close] })] }
       | none => some { s with chans := s.chans ++ [(id, {})] }
+  | .remove id =>
+    if !s.puts.isEmpty then none
+    else match chanOf s id with
+      | some c => some { s with chans := s.chans.filter (·.1 != id), orphans := s.orphans.filter (·.1 != id) ++ [(id, c)] }
+      | none => some s            -- nothing registered under id (e.g. the consumer was ended): its worker is not touched
   | .addResume => none
   | e => step cfg s e
 
